@@ -255,6 +255,27 @@ func runCrashWorkload(base string, w c05workload, rep *hx.Report, cf *hx.CasesFi
 		}
 		// what the metadata found on disk claims before this run
 		before := loadSidecars(out)
+		// now and then the user has tidied up in between: a partly received data file is gone
+		// (or cut short) while its metadata is still there. That metadata may not be used.
+		tampered := map[string]bool{}
+		if p.depth > 0 && r.Intn(5) == 0 {
+			for _, sv := range before {
+				rel, ok := idToRel[sv.fileID]
+				if !ok || tampered[rel] || r.Intn(2) == 0 {
+					continue
+				}
+				fp := filepath.Join(out, filepath.FromSlash(rel))
+				if st, err := os.Stat(fp); err == nil {
+					if r.Intn(2) == 0 || st.Size() < 2 {
+						os.Remove(fp)
+					} else {
+						os.Truncate(fp, st.Size()/2)
+					}
+					tampered[rel] = true
+					rep.Count("data-file-removed-or-cut-before-resume")
+				}
+			}
+		}
 		cr := &crashRun{outDir: out, snapRoot: filepath.Join(dir, fmt.Sprintf("snaps_%d_%d", p.depth, resumed)), rng: r.Fork(uint64(resumed)), flushProb: 35, maxSnaps: 40, active: true}
 		if w.streams > 1 && cr.rng.Intn(2) == 0 {
 			cr.straggle, cr.victim = true, uint32(cr.rng.Intn(3))
@@ -307,7 +328,7 @@ func runCrashWorkload(base string, w c05workload, rep *hx.Report, cf *hx.CasesFi
 		// advertised = what the metadata marked (receiver counts the set bits it loaded)
 		for _, sv := range before {
 			rel, ok := idToRel[sv.fileID]
-			if !ok {
+			if !ok || tampered[rel] {
 				continue
 			}
 			want := uint32(0)
@@ -337,7 +358,7 @@ func runCrashWorkload(base string, w c05workload, rep *hx.Report, cf *hx.CasesFi
 		if !noResume && res.sendDone && res.recvDone && res.sendErr == nil && res.recvErr == nil {
 			for _, sv := range before {
 				rel, ok := idToRel[sv.fileID]
-				if !ok || sv.fileSize != int64(len(byRel[rel])) || int(sv.chunkSize) != csRun {
+				if !ok || tampered[rel] || sv.fileSize != int64(len(byRel[rel])) || int(sv.chunkSize) != csRun {
 					continue
 				}
 				again := []uint32{}
@@ -391,6 +412,13 @@ func runCrashWorkload(base string, w c05workload, rep *hx.Report, cf *hx.CasesFi
 				}
 				srcData := byRel[rel]
 				got, _ := os.ReadFile(filepath.Join(sd, filepath.FromSlash(rel)))
+				if tampered[rel] && int64(len(got)) != sv.fileSize {
+					// the data file was removed / cut by the user and the receiver has not reached this
+					// file yet: the stale metadata is not the receiver's claim (and is discarded when the
+					// file begins, or by the next resume: C06); once the file is there again at its full
+					// length whatever metadata is found must be honest
+					continue
+				}
 				marked := 0
 				for i, b := range sv.bits {
 					if !b {
@@ -488,7 +516,7 @@ func runC04(cfg config) *hx.Report { return runCrash(cfg, "C04") }
 
 func runCrash(cfg config, prop string) *hx.Report {
 	rep := hx.NewReport(prop)
-	rep.Rule = "workloads (tree seed, chunk size, streams) run with the real endpoints; at hook points (chunk written / marked, sidecar tmp written / renamed, finalize) the output directory is snapshotted = the disk a SIGKILL there would leave; extra metadata flushes are injected at random chunk writes; some interrupted fetches are repeated without resume over the metadata the earlier attempt left. Each snapshot is (C05) checked chunk by chunk against the source and (C04) resumed from, up to 3 interruptions deep. Non-trivial = a snapshot whose metadata marks some but not all chunks of a file; distinct by (workload, snapshot, bitmap)"
+	rep.Rule = "workloads (tree seed, chunk size, streams) run with the real endpoints; at hook points (chunk written / marked, sidecar tmp written / renamed, finalize) the output directory is snapshotted = the disk a SIGKILL there would leave; extra metadata flushes are injected at random chunk writes; some interrupted fetches are repeated without resume over the metadata the earlier attempt left; before some resumed runs a partly received data file is removed or cut short while its metadata stays. Each snapshot is (C05) checked chunk by chunk against the source and (C04) resumed from, up to 3 interruptions deep. Non-trivial = a snapshot whose metadata marks some but not all chunks of a file; distinct by (workload, snapshot, bitmap)"
 	cf := &hx.CasesFile{Dir: cfg.out, Name: prop, Module: "C05", Imports: []string{"Model.Crash", "Corr.C05"}, PerShard: 40}
 	base, _ := os.MkdirTemp("", "c05")
 	defer os.RemoveAll(base)
